@@ -63,7 +63,9 @@ CHECKS["C10"] = ("Coq model Options/Resolve.v of the order-sensitive derive-time
 CHECKS["C03"] = ("Coq theorems: with_span only fills an empty span (first writer wins), locations and spans are independent, flatten()/into_vec yield the leaves each with its own span or else its nearest "
          "spanned enclosing bundle's (plain tree traversal as specification), one compiler diagnostic per leaf at that span (call site + path in the message only for a leaf with no span at all), a spanned "
          "root spans every leaf; for EVERY FromMeta implementer the default methods return spanned errors and never replace an inner span; for every derived struct level each recorded error is spanned "
-         "(item span unless the field's conversion attached a more specific one). Tied to the code by (A) random error-builder histories with spans compared on value / flatten / syn::Error / write_errors, "
+         "(item span unless the field's conversion attached a more specific one); for derived receivers of ANY shape and depth (induction over the type universe) and every positionally well-formed input, "
+         "every leaf of the error returned for a meta item is spanned inside that item (impl_inside), with the leaf contract proved for the plain library targets and no assumption left for the instance the check runs "
+         "(checked_instance_inside; the input hypothesis is evaluated on every case by wfpb, proved sound). Tied to the code by (A) random error-builder histories with spans compared on value / flatten / syn::Error / write_errors, "
          "(B) compiled corpus receivers on faulty inputs parsed from source text (every leaf spanned, inside the input, equal to a node's own range, inside a top-level item named by its location) with the model "
          "compared span for span, (C) scalar targets (rejections spanned inside the value).",
          "Coq proof (induction over error trees; quantified over all implementers / field lists) + per-run differential correspondence with real line/column spans")
